@@ -468,3 +468,31 @@ Proof.
   assert (0 <= p) by (unfold p; destruct (h_sp st); lia).
   pose proof (div_round_he_nearest (p * c_age_n c) (c_age_d c) Hd) as N. cbn zeta in N. nia.
 Qed.
+
+(* ------------------------------------------------------------------ the resized capacity *)
+
+Lemma clamp_len_bounds : forall c n, 1 <= c_max_len c -> 1 <= clamp_len c n <= c_max_len c.
+Proof.
+  intros c n H. unfold clamp_len. destruct (Z.max 1 n >? c_max_len c) eqn:E; lia.
+Qed.
+
+(* a capacity accepted by the specification of _update_buffer_len lies in [1, max_buffer_len] *)
+Theorem olen_ok_bounds : forall c osp olen,
+  1 <= c_max_len c -> olen_ok c osp olen = true -> 1 <= olen <= c_max_len c.
+Proof.
+  intros c osp olen H Hok. unfold olen_ok in Hok.
+  destruct (if osp >? c_period c then (osp * c_age_n c, 1000000 * c_age_d c)
+            else (c_period c * c_age_n c, osp * c_age_d c)) as [a b].
+  apply orb_true_iff in Hok. destruct Hok as [Hok|Hok]; [apply orb_true_iff in Hok; destruct Hok as [Hok|Hok]|].
+  - apply Z.eqb_eq in Hok. rewrite Hok. apply clamp_len_bounds; auto.
+  - apply andb_true_iff in Hok. destruct Hok as [_ Hok]. apply Z.eqb_eq in Hok. rewrite Hok. apply clamp_len_bounds; auto.
+  - apply andb_true_iff in Hok. destruct Hok as [_ Hok]. apply Z.eqb_eq in Hok. rewrite Hok. apply clamp_len_bounds; auto.
+Qed.
+
+(* the accepted estimate is the quotient (T - start)/received within one microsecond *)
+Theorem osp_ok_spec : forall st T osp s0,
+  h_start st = Some s0 -> 0 < h_recv st -> osp_ok st T osp = true ->
+  (osp - 1) * h_recv st <= T - s0 <= (osp + 1) * h_recv st.
+Proof.
+  intros st T osp s0 Hs Hr Hok. unfold osp_ok in Hok. rewrite Hs in Hok. lia.
+Qed.
